@@ -203,7 +203,7 @@ fn c08(tier: &str) -> Vec<String> {
     let th = tier == "thorough";
     let mut v = vec![];
     let caps: &[&str] = if th { &["u", "1", "2", "0"] } else { &["u", "1"] };
-    let scripts: &[&str] = if th { &["", "e", "p", "op", "pp"] } else { &["", "p"] };
+    let scripts: &[&str] = if th { &["", "e", "i", "p", "op", "pp", "ip"] } else { &["", "p", "i"] };
     for h in handle_histories(if th { 5 } else { 4 }) {
         // a history that ends with all handles dropped cannot wait
         for cap in caps {
@@ -300,8 +300,8 @@ fn c11(tier: &str) -> Vec<String> {
     let mut v = vec![];
     let nmax = if th { 4 } else { 3 };
     for n in 1..=nmax {
-        for sc in all_scripts(&['o', 'e', 'p'], n) {
-            if !sc.contains('p') {
+        for sc in all_scripts(&['o', 'e', 'p', 'i'], n) {
+            if !sc.contains('p') || (sc.contains('i') && (n > 3 || sc.contains('e'))) {
                 continue;
             }
             let emits = "E0".repeat(n);
@@ -439,6 +439,12 @@ fn c12(tier: &str) -> Vec<String> {
         // through the client, refusals reported as WouldBlock (a non-blocking socket under back-pressure)
         for cap in [7, 14] {
             v.push(format!("mutex:sink=spy:q=1:wb=1:via=client:cap={}:prog={}", cap, prog));
+        }
+    }
+    // metrics of different lengths around a refused flush (a retained line plus an exactly fitting one)
+    for prog in ["EEFEFRLF", "EEFEF.RLF", "EFLFRLF", "LEFEFRL.F", "EEFEFR.LF"] {
+        for cap in [6, 7] {
+            v.push(format!("mutex:sink=spy:q=1:via=sink:cap={}:prog={}", cap, prog));
         }
     }
     // one client -> queuing sink -> buffered sink, flush racing the worker: order and conservation
